@@ -304,8 +304,10 @@ __CPROVER_requires(rnode == CK.n ==> (rnode->c1 == CK.c1 && rnode->c2 == CK.c2 &
 __CPROVER_assigns()
 /* children: the hypothesis; the node itself: the formula over the children's values, saturated at NINST */
 __CPROVER_ensures(rnode != CK.n ==> __CPROVER_return_value == KOF(rnode))
+#ifndef COUNT_NO_FORMULA	/* equality of two symbolic products: decided only for small repetition counts (unit rx.rnode_count_bounded) */
 __CPROVER_ensures(rnode == CK.n ==> __CPROVER_return_value ==
 	(COUNTF(rnode->mincnt, rnode->maxcnt, NOREP(rnode->rn)) < NINST ? COUNTF(rnode->mincnt, rnode->maxcnt, NOREP(rnode->rn)) : NINST))
+#endif
 __CPROVER_ensures(0 <= __CPROVER_return_value && __CPROVER_return_value <= NINST)
 ;
 void h_rnode_count(void)
@@ -313,7 +315,7 @@ void h_rnode_count(void)
 	struct rnode *n = malloc(sizeof(*n));
 	CK.n = n; CK.c1 = nondet_bool() ? (struct rnode *) malloc(1) : (struct rnode *) 0; CK.c2 = nondet_bool() ? (struct rnode *) malloc(1) : (struct rnode *) 0;
 	CK.K1 = nondet_int(); CK.K2 = nondet_int();
-	rnode_count(nondet_bool() ? n : nondet_bool() ? CK.c1 : CK.c2);
+	rnode_count(n);
 #ifdef CANARY
 	__CPROVER_assert(0, "canary");
 #endif
@@ -395,6 +397,65 @@ void h_rnode_emit(void)
 	struct regex *p;
 	struct rnode *gn; struct regex *gp; CK.n = gn; CK.p = gp; CK.cap = nondet_int(); CK.N = nondet_int(); CK.e = nondet_int();
 	rnode_emit(n, p);
+#ifdef CANARY
+	__CPROVER_assert(0, "canary");
+#endif
+}
+
+/* ================================================================== regcomp: reserves estimate + 3 entries, rejects saturated estimates (C11) */
+struct ghost_rc_in { struct rnode *root; int K; } RK;	/* constants */
+struct ghost_rc { int freed; int emitted; int parsed; } RKV;
+struct rnode *rnode_parse_top_contract(char **pat)
+__CPROVER_requires(pat != 0)
+__CPROVER_assigns(*pat, RKV.parsed)
+__CPROVER_ensures((__CPROVER_return_value == 0 && RKV.parsed == 0) || (__CPROVER_return_value == RK.root && RK.root != 0 && RKV.parsed == 1))
+;
+int rnode_count_top_contract(struct rnode *rnode)
+__CPROVER_requires(rnode == 0 || rnode == RK.root)
+__CPROVER_assigns()
+__CPROVER_ensures(__CPROVER_return_value == (rnode ? RK.K : 0))
+;
+int rnode_grpnum_top_contract(struct rnode *rnode, int num)
+__CPROVER_requires(rnode == RK.root && rnode != 0)
+__CPROVER_assigns()
+;
+void rnode_free_top_contract(struct rnode *rnode)
+__CPROVER_requires(rnode == RK.root && rnode != 0 && !RKV.freed)
+__CPROVER_assigns(RKV.freed)
+__CPROVER_ensures(RKV.freed == 1)
+;
+/* the emitter as proved by units rx.rnode_emit*, rx.rnode_emitnorep: given room for the (unsaturated) estimate it writes at most that many instructions */
+void rnode_emit_top_contract(struct rnode *n, struct regex *p)
+__CPROVER_requires(n == RK.root && n != 0 && p != 0 && !RKV.freed)
+__CPROVER_requires(RK.K < NINST && 0 <= p->n && ((long) p->n + RK.K) * (long) sizeof(struct rinst) <= (long) __CPROVER_OBJECT_SIZE(p->p) && __CPROVER_POINTER_OFFSET(p->p) == 0)
+__CPROVER_assigns(p->n, __CPROVER_object_whole(p->p), RKV.emitted)
+__CPROVER_ensures(__CPROVER_old(p->n) <= p->n && p->n - __CPROVER_old(p->n) <= RK.K && RKV.emitted == 1)
+;
+int regcomp_frame_contract(regex_t *preg, char *pat, int flg)
+__CPROVER_requires(preg != 0)
+__CPROVER_assigns(*preg, RKV)
+;
+void h_regcomp(void)
+{
+	regex_t re = 0;
+	char pat[4];
+	int flg = nondet_int();
+	RK.root = nondet_bool() ? (struct rnode *) malloc(1) : (struct rnode *) 0;
+	RK.K = nondet_int();
+	__CPROVER_assume(0 <= RK.K && RK.K <= NINST);	/* rx.rnode_count: the estimate lies in 0..NINST */
+	RKV.freed = 0; RKV.emitted = 0; RKV.parsed = 0;
+	int r = regcomp(&re, pat, flg);
+	if (r) {
+		__CPROVER_assert(re == 0 && !RKV.emitted, "regcomp: a rejected pattern produces no program");
+		__CPROVER_assert(!RKV.parsed || RKV.freed, "regcomp: the tree of a rejected pattern is released");
+		__CPROVER_assert(!RKV.parsed || RK.K >= NINST, "regcomp: a parsed pattern is rejected only when its size estimate is saturated");
+	} else {
+		__CPROVER_assert(RK.root != 0 && RK.K < NINST && RKV.emitted && RKV.freed, "regcomp: success means parsed, estimate not saturated, emitted, tree released");
+		__CPROVER_assert(re != 0 && re->p != 0 && 3 <= re->n && (long) re->n * (long) sizeof(struct rinst) <= (long) __CPROVER_OBJECT_SIZE(re->p), "regcomp: the program fits the memory reserved for it");
+		__CPROVER_assert(re->n <= RK.K + 3, "regcomp: at most estimate + 3 instructions");
+		__CPROVER_assert(re->p[re->n - 2].ri == RI_MARK && re->p[re->n - 2].mark == 1 && re->p[re->n - 1].ri == RI_MATCH, "regcomp: the program ends with mark 1, match");
+		__CPROVER_assert(re->flg == flg, "regcomp: the flags are stored");
+	}
 #ifdef CANARY
 	__CPROVER_assert(0, "canary");
 #endif
